@@ -136,6 +136,12 @@ func (tx *Transaction) Commit(ctx context.Context, scope *ReferenceScope, expr p
 	tx.operationMutex.Lock()
 	defer tx.operationMutex.Unlock()
 
+	// Tables without records are encoded without looking at the context, so a run that has already been
+	// interrupted is stopped here, before anything is written.
+	if ctx.Err() != nil {
+		return ConvertContextError(ctx.Err())
+	}
+
 	createdFiles, updatedFiles := tx.UncommittedViews.UncommittedFiles()
 
 	createFileInfo := make([]*FileInfo, 0, len(createdFiles))
